@@ -297,13 +297,22 @@ func c18Execute(progs [][]int, r *engine.Run, lvl int) (results []string, s *eng
 		})
 		defer engine.SetMapOrderHook(nil)
 		if lvl >= 2 {
-			engine.SetStepHook(func() { s.Point("statement") })
+			engine.SetStepHook(func() { s.Point("statement") }) // Point ignores goroutines the scheduler does not own
 			defer engine.SetStepHook(nil)
 		}
 		rd := newRaceDetector(len(progs))
 		s.Race = rd
-		engine.SetSchedHooks(func(label string) { rd.syncOp(s.Current()); s.Point(label) }, s.Block)
+		engine.SetSchedHooks(func(label string) {
+			if !s.Owned() {
+				return
+			}
+			rd.syncOp(s.Current())
+			s.Point(label)
+		}, s.Block)
 		engine.SetAccessHook(func(id int, write bool) {
+			if !s.Owned() {
+				return
+			}
 			rd.access(s.Current(), id, write)
 			if fine {
 				s.Point("global-access")
@@ -405,6 +414,9 @@ func c18One(c *engine.Ctx, progs [][]int, r *engine.Run, bound int, lvl int) {
 		c.Note("harness: " + r.Diverged)
 		c.Cap("schedule replay diverged (nondeterminism outside the scheduler's control)")
 		return
+	}
+	if s.Foreign > 0 || engine.ForeignSeen {
+		c.Cap("the library runs code on goroutines of its own: their interleavings are not owned by the scheduler (hook calls from them are ignored; results are still compared)")
 	}
 	if s.Deadlock {
 		c.Violate("deadlock", fmt.Sprintf("%s: no thread can continue; %s", names(), s.Describe()), cs())
@@ -818,28 +830,33 @@ func c18Footprints(c *engine.Ctx, opIdx []int) {
 	ops := c18Ops()
 	fps := map[int]footprint{}
 	for _, oi := range opIdx {
-		a, b := c18Footprint(oi, 0), c18Footprint(oi, 1)
-		// first use in a fresh process (lazy initialisation of package-level state)
+		// three runs of the op alone: as thread 0, as thread 1 (other contents), and as the very first use of the
+		// library in a fresh process (lazy initialisation shows only there). The number of synchronisation
+		// operations that matters is that of the runs that changed something (a run that touches no shared state
+		// needs no synchronisation).
+		runs := []footprint{c18Footprint(oi, 0), c18Footprint(oi, 1)}
 		if fu, ok := c18FirstUse(oi); ok {
 			c.Count("first_use_footprints_measured", 1)
-			a.changed = append(a.changed, fu.changed...)
-			if len(fu.changed) > 0 && fu.syncs < a.syncs {
-				a.syncs = fu.syncs
-			}
-			if len(fu.changed) > 0 && fu.syncs == 0 {
-				a.syncs = 0
-			}
+			runs = append(runs, fu)
 		}
-		fp := footprint{syncs: a.syncs}
+		fp := footprint{syncs: -1}
 		seen := map[string]bool{}
-		for _, v := range append(a.changed, b.changed...) {
-			if !seen[v] {
-				seen[v] = true
-				fp.changed = append(fp.changed, v)
+		for _, r := range runs {
+			if len(r.changed) == 0 {
+				continue
+			}
+			if fp.syncs < 0 || r.syncs < fp.syncs {
+				fp.syncs = r.syncs
+			}
+			for _, v := range r.changed {
+				if !seen[v] {
+					seen[v] = true
+					fp.changed = append(fp.changed, v)
+				}
 			}
 		}
-		if b.syncs < fp.syncs {
-			fp.syncs = b.syncs
+		if fp.syncs < 0 {
+			fp.syncs = 0
 		}
 		fps[oi] = fp
 		c.Evals++
